@@ -608,6 +608,11 @@ def unbound(ctx, repo, scope=("",), rule="UNBOUND", _self=False):
                         continue
                     reported.add(name)
                     key = (rel, q.split("#")[0], name)
+                    if key not in UNBOUND_AUDIT:
+                        # the audited code moved into another function of the module (extract function): same variable, same module
+                        alt = [k for k in UNBOUND_AUDIT if k[0] == rel and k[2] == name]
+                        if len(alt) == 1:
+                            key = alt[0]
                     if key in UNBOUND_AUDIT:
                         seen_audit.add(key)
                         ctx.ob(rule, f"{rel}:{q}", f"{name} (audited: {UNBOUND_AUDIT[key]})", True)
